@@ -59,7 +59,7 @@ package criteria_mixing
 //@   returnhint [mixed_from_the_current_values_of_all_alternatives] len(current.Criteria) < 2 || (model.isRescaledOf(mixResult.c1, c2m.c1, addr(allAlternatives), targetValRange)
 //@             && model.isRescaledOf(mixResult.c2, c2m.c2, addr(allAlternatives), targetValRange)
 //@             && len(allAlternatives) == len(current.ConsideredAlternatives) + len(current.NotConsideredAlternatives))
-//@   property C18 C07 C01 C09
+//@   property C18 C07 C01 C09 C20
 //@   requires model.coherent(*listener, *current) && model.coherent(*listener, *original) && len(original.Criteria) > 0
 //@   requires forall i int, j int :: 0 <= i && i < j && j < len(current.ConsideredAlternatives) ==> current.ConsideredAlternatives[i].Id != current.ConsideredAlternatives[j].Id
 //@   requires forall i int, j int :: 0 <= i && i < j && j < len(current.NotConsideredAlternatives) ==> current.NotConsideredAlternatives[i].Id != current.NotConsideredAlternatives[j].Id
@@ -93,15 +93,19 @@ package criteria_mixing
 //@ wire CriteriaMixingParams
 //@   property C01 C07 C18 C20
 //@   json RandomSeed=randomSeed MixingRatio=mixingRatio
+//@   gotypes RandomSeed=int64 MixingRatio=float64
 //@ wire MixedCriterion
 //@   property C01 C07 C18 C20
 //@   json Component1=component1 Component2=component2 NewCriterion=newCriterion Params=params
+//@   gotypes Component1=CriterionComponent Component2=CriterionComponent NewCriterion=CriterionComponent Params=model.MethodParameters
 //@ wire CriterionComponent
 //@   property C01 C07 C18 C20
 //@   json Id=id Type=type ScaledValues=scaledValues
+//@   gotypes Id=string Type=model.CriterionType ScaledValues=model.Weights
 //@ wire MixedCriterionValue
 //@   property C01 C07 C18 C20
 //@   json Value=value
+//@   gotypes Value=model.Weight
 
 // ---- registered names (what a request must say to select this object; what error messages list)
 //@ func (*CriteriaMixing).Identifier
@@ -112,14 +116,14 @@ package criteria_mixing
 // ---- the state and the report mixing hands on
 //@ func updateDMParams
 //@   inline
-//@   property C18 C07 C09 C20
+//@   property C18 C07 C09 C20 C01
 //@   ensures [state] result.MethodParameters == newMethodParams && len(result.Criteria) == len(params.Criteria) + 1 && result.Criteria[len(params.Criteria)] == newCriterion
 //@             && (forall k int :: 0 <= k && k < len(params.Criteria) ==> result.Criteria[k] == params.Criteria[k])
 //@             && len(result.ConsideredAlternatives) == len(params.ConsideredAlternatives) && len(result.NotConsideredAlternatives) == len(params.NotConsideredAlternatives)
 //@             && (forall i int :: 0 <= i && i < len(params.ConsideredAlternatives) ==> result.ConsideredAlternatives[i].Id == params.ConsideredAlternatives[i].Id)
 //@             && (forall i int :: 0 <= i && i < len(params.NotConsideredAlternatives) ==> result.NotConsideredAlternatives[i].Id == params.NotConsideredAlternatives[i].Id)
 //@ func prepareMixedCriterion
-//@   property C18 C09 C07 C20
+//@   property C18 C09 C07 C20 C01
 //@   nopanic
 //@   ensures [report] result.Component1.Id == c2m.c1.Id && result.Component1.Type == c2m.c1.Type && result.Component1.ScaledValues == mixResult.c1
 //@             && result.Component2.Id == c2m.c2.Id && result.Component2.Type == c2m.c2.Type && result.Component2.ScaledValues == mixResult.c2
